@@ -13,8 +13,6 @@ ASSUMPTIONS = ["that two occurrences of one k-mer see the same minimizer follows
 
 
 def run(F, rep):
-    # crate helpers generic over the k-mer type: identified with a trait operation per type (and used as such by the tables below)
-    rep.run(lemmas.kmer_helper_lemmas, F, rep, "C08.9")
     rep.engines.update(["E2-DT", "affine", "E1"])
     rep.run(dt_msp.score_closure_tables, F, rep, "C08.1")
     rep.run(dt_msp.piece_closure_table, F, rep, "C08.2")
